@@ -314,6 +314,12 @@ func emit(e *vlib.Env, w *world, st *stats, sc *scenario, mut string) {
 		predC06(e, in, a)
 	case "C07":
 		predC07(e, in, a)
+	case "C08":
+		// C08 (fast-path part): the real processPkt must not panic on any input; the model's
+		// process_total theorem says the modelled fast path never reaches `crash`.
+		if a.kind == "PANIC" {
+			e.Violate("C08/panic/fastpath", "processPkt panicked: "+clip(a.text), in.replay(a))
+		}
 	}
 	if len(e.Samples) < 4 && a.kind != "drop" {
 		e.Sample(map[string]any{"scenario": sc.kind, "mutator": mut, "op": clip(op), "impl": clip(a.text)})
